@@ -41,6 +41,7 @@ type fanScenario struct {
 	plan    [][]fanOp
 	blockAt map[int]int // channel -> index of the transport Write that blocks
 	failAt  map[int]int // channel -> index of the transport Write that fails
+	pauseAt map[int]int // channel -> index of the transport Write that waits until every item has been submitted
 	seed    int64
 	pace    int // >= 0: after every write wait until every channel but this one has put the item on the wire
 }
@@ -86,6 +87,9 @@ func runFanScenario(sc fanScenario) fanResult {
 		}
 		if f, ok := sc.failAt[i]; ok {
 			conns[i].failAt = f
+		}
+		if p, ok := sc.pauseAt[i]; ok {
+			conns[i].pauseAt = p
 		}
 		eps = append(eps, gomavlib.EndpointCustom{ReadWriteCloser: conns[i]})
 	}
@@ -212,6 +216,12 @@ func runFanScenario(sc fanScenario) fanResult {
 	case <-done:
 	case <-time.After(10 * time.Second):
 		res.note += "writers-stalled"
+	}
+	// every item has been submitted: transports that were only pausing go on now (their backlog drains)
+	for i := range conns {
+		if _, ok := sc.pauseAt[i]; ok {
+			close(conns[i].release)
+		}
 	}
 	// let the channel writers drain: every healthy channel must have carried what was addressed to it (the harness knows the
 	// plan), however long its writer goroutine is kept off the CPU; then a quiet period for the rest
@@ -355,13 +365,13 @@ func genC13(r *rngT, n int, tier string) {
 	for s := 0; s < n; s++ {
 		k := 2 + r.Intn(3)
 		victim := r.Intn(k)
-		mode := []string{"block", "fail", "bad"}[s%3]
+		mode := []string{"block", "fail", "bad", "pause"}[s%4]
 		at := r.Intn(4)
-		nitems := 70 + r.Intn(80) // beyond the queue bound of the victim
-		if mode != "block" {
+		nitems := 75 + r.Intn(80) // beyond the queue bound of the victim
+		if mode == "fail" || mode == "bad" {
 			nitems = 20 + r.Intn(30)
 		}
-		sc := fanScenario{k: k, seed: r.Int63(), blockAt: map[int]int{}, failAt: map[int]int{}, pace: victim}
+		sc := fanScenario{k: k, seed: r.Int63(), blockAt: map[int]int{}, failAt: map[int]int{}, pauseAt: map[int]int{}, pace: victim}
 		var ops []fanOp
 		badIdx := -1
 		for i := 0; i < nitems; i++ {
@@ -378,6 +388,8 @@ func genC13(r *rngT, n int, tier string) {
 			sc.blockAt[victim] = at
 		case "fail":
 			sc.failAt[victim] = at
+		case "pause":
+			sc.pauseAt[victim] = at
 		}
 		sc.plan = [][]fanOp{ops}
 		res := runFanScenario(sc)
